@@ -97,6 +97,7 @@ class DeltaGraph:
         """
         self.degree = degree
         self.graph_dict = {}
+        self.recorded = set()
         if init_nodes:
             for node in init_nodes:
                 if isinstance(node, Monomial):
@@ -115,6 +116,7 @@ class DeltaGraph:
         Arguments:
             monomial: monomial
         """
+        self.recorded.add(tuple(monomial.deltas))
         self.insert_node(tuple(monomial.deltas))
 
     def insert_edge(self, node1: NODE, node2: NODE, label: int) -> None:
